@@ -78,7 +78,7 @@ long read_set(const S &s, const S &mine, unsigned r) {
   typedef typename S::value_type T;
   acc += static_cast<long>(s.size()) + s.empty();
   for (typename S::const_iterator it = s.begin(); it != s.end(); ++it) acc += keyof(*it);
-  T k(static_cast<int>(r % 40));
+  T k(static_cast<int>(r % (s.size() > 40 ? 1009 : 40)));
   acc += (s.find(k) != s.end()) + s.contains(k) + static_cast<long>(s.count(k));
   acc += (s == mine) + (s != mine) + (s < mine) + (s >= mine);
   S copy(s);
@@ -88,7 +88,7 @@ long read_set(const S &s, const S &mine, unsigned r) {
 template <class S>
 long read_flat_extra(const S &s, unsigned r) {
   typedef typename S::value_type T;
-  T k(static_cast<int>(r % 40));
+  T k(static_cast<int>(r % (s.size() > 40 ? 1009 : 40)));
   long acc = (s.lower_bound(k) - s.begin()) + (s.upper_bound(k) - s.begin());
   std::pair<typename S::const_iterator, typename S::const_iterator> er = s.equal_range(k);
   acc += er.second - er.first;
@@ -180,7 +180,7 @@ template <class S, bool FLAT>
 long set_case(int fill, unsigned maxlen, int nthreads, int iters, unsigned seed, long &overlaps) {
   S shared;
   typedef typename S::value_type T;
-  for (int i = 0; i < fill; ++i) shared.insert(T((i * 17 + 5) % 37));  // neither ascending nor descending: the inline state keeps insertion order
+  for (int i = 0; i < fill; ++i) shared.insert(T((i * 17 + 5) % (fill > 37 ? 1009 : 37)));  // neither ascending nor descending: the inline state keeps insertion order
   std::vector<S> priv(nthreads);
   const S &cs = shared;
   std::vector<Burst> bursts;
@@ -196,7 +196,7 @@ template <class S>
 long flat_case(int fill, unsigned maxlen, int nthreads, int iters, unsigned seed, long &overlaps) {
   S shared;
   typedef typename S::value_type T;
-  for (int i = 0; i < fill; ++i) shared.insert(T((i * 17 + 5) % 37));  // neither ascending nor descending: the inline state keeps insertion order
+  for (int i = 0; i < fill; ++i) shared.insert(T((i * 17 + 5) % (fill > 37 ? 1009 : 37)));  // neither ascending nor descending: the inline state keeps insertion order
   std::vector<S> priv(nthreads);
   const S &cs = shared;
   std::vector<Burst> bursts;
@@ -212,8 +212,8 @@ long flat_case(int fill, unsigned maxlen, int nthreads, int iters, unsigned seed
 static const char *kCases[] = {
     "vector<int>/empty", "vector<int>/heap", "vector<TRs>/heap", "SmallVector<TCs,4>/inline", "SmallVector<TCs,4>/heap", "SmallVector<TRs,3>/inline-full",
     "FixedCapacityVector<int,8>/partial", "FixedCapacityVector<TRs,8>/full", "FlatSet<int>/heap", "FlatSet<TCs,SmallVector<4>>/inline", "FlatSet<TRs>/empty",
-    "SmallSet<int,4>/inline", "SmallSet<int,4>/large", "SmallSet<TCs,4,FlatSet>/inline", "SmallSet<TCs,4,FlatSet>/large", "SmallSet<TRs,3>/empty"};
-static const int kNCases = 16;
+    "SmallSet<int,4>/inline", "SmallSet<int,4>/large", "SmallSet<TCs,4,FlatSet>/inline", "SmallSet<TCs,4,FlatSet>/large", "SmallSet<TRs,3>/empty", "FlatSet<int>/200", "vector<TCs>/500", "SmallSet<int,4>/large-150", "FlatSet<TRs,SmallVector<8>>/100"};
+static const int kNCases = 20;
 
 long run_case(int c, int nthreads, int iters, unsigned seed, long &ov) {
   typedef amc::FlatSet<TCs, std::less<TCs>, amc::allocator<TCs>, amc::SmallVector<TCs, 4> > FSsv;
@@ -234,7 +234,11 @@ long run_case(int c, int nthreads, int iters, unsigned seed, long &ov) {
     case 12: return set_case<amc::SmallSet<int, 4>, false>(12, 30, nthreads, iters, seed, ov);
     case 13: return set_case<SSf, true>(4, 30, nthreads, iters, seed, ov);
     case 14: return set_case<SSf, true>(10, 30, nthreads, iters, seed, ov);
-    default: return set_case<amc::SmallSet<TRs, 3>, false>(0, 30, nthreads, iters, seed, ov);
+    case 15: return set_case<amc::SmallSet<TRs, 3>, false>(0, 30, nthreads, iters, seed, ov);
+    case 16: return flat_case<amc::FlatSet<int> >(200, 30, nthreads, iters, seed, ov);
+    case 17: return vec_case<amc::vector<TCs> >(500, 30, nthreads, iters / 4, seed, ov);
+    case 18: return set_case<amc::SmallSet<int, 4>, false>(150, 30, nthreads, iters, seed, ov);
+    default: return flat_case<amc::FlatSet<TRs, std::less<TRs>, amc::allocator<TRs>, amc::SmallVector<TRs, 8> > >(100, 30, nthreads, iters, seed, ov);
   }
 }
 
